@@ -773,8 +773,9 @@ class AnsiString:
             # Make a copy
             obj = self.copy()
 
-            # This will allow a colon to be a fill character based on the expected format
-            format_match = re.match(r'(^.?[-\+]?[<>\^]?[0-9]*)(:.*)?$', format_spec)
+            # This will allow a colon to be a fill character based on the expected format; a fill character and
+            # flag are only present together with an alignment character (":" alone is an empty string_format)
+            format_match = re.match(r'(^(?:.?[-\+]?[<>\^])?[0-9]*)(:.*)?$', format_spec)
 
             if not format_match:
                 format_parts = [format_spec]
